@@ -330,5 +330,10 @@ func timeOfView(v string, adj bool) (time.Time, error) {
 // e.g. the view "string_201901" would return "201901".
 func viewTimePart(v string) string {
 	parts := strings.Split(v, "_")
+	if len(parts) < 2 {
+		// no time portion: the plain standard view is not a time view
+		// (its 8 characters would otherwise pass for a day)
+		return ""
+	}
 	return parts[len(parts)-1]
 }
